@@ -1,8 +1,14 @@
 package c01
 
 import (
+	"fmt"
+
 	"go.starlark.net/starlark"
 	"go.starlark.net/syntax"
+
+	"verif/internal/canon"
+	"verif/internal/refeval"
+	"verif/internal/sl"
 )
 
 // Pair runs src through the production pipeline and through the reference evaluator in fresh
@@ -37,4 +43,67 @@ func StaticEnv() (starlark.StringDict, func() int, *starlark.Thread) {
 	ev := &events{}
 	th := newThread(ev, loaderM)
 	return hostEnv(ev), func() int { return len(ev.list) }, th
+}
+
+// PairCall executes src on both evaluators and then calls the global function fn(arg) from the
+// host on a fresh thread (an empty call stack), comparing events and outcome of that call.
+func PairCall(opts *syntax.FileOptions, src, fn string, arg int) (what, desc string, vmOK bool, vmMsg string) {
+	// production pipeline
+	vev := &events{}
+	venv := hostEnv(vev)
+	vth := newThread(vev, loaderM)
+	vth.SetMaxExecutionSteps(300000)
+	vg, err := starlark.ExecFileOptions(opts, vth, "prog.star", src, venv)
+	if err != nil {
+		return "module-failed", err.Error(), false, err.Error()
+	}
+	// reference evaluator
+	rev := &events{}
+	renv := hostEnv(rev)
+	rth := newThread(rev, loaderM)
+	f, err := opts.Parse("prog.star", src, 0)
+	if err != nil {
+		return "module-failed", err.Error(), false, err.Error()
+	}
+	in := &refeval.Interp{Opts: opts, Predeclared: renv, Thread: rth, Fuel: 6000000}
+	rg, err := in.ExecFile(f)
+	if err != nil {
+		return "module-failed", err.Error(), false, err.Error()
+	}
+	if len(vev.list) != len(rev.list) {
+		return "events", "module events differ", false, ""
+	}
+	// the host calls fn on fresh threads
+	vth2 := newThread(vev, loaderM)
+	vth2.SetMaxExecutionSteps(300000)
+	rth2 := newThread(rev, loaderM)
+	in.Thread = rth2
+	var verr, rerr error
+	var vv, rv starlark.Value
+	vp := sl.Safe(func() { vv, verr = starlark.Call(vth2, vg[fn], starlark.Tuple{starlark.MakeInt(arg)}, nil) })
+	rp := sl.Safe(func() { rv, rerr = starlark.Call(rth2, rg[fn], starlark.Tuple{starlark.MakeInt(arg)}, nil) })
+	if vp != nil {
+		return "vm-panic", fmt.Sprint(vp.Value), false, ""
+	}
+	if rp != nil {
+		return "HARNESS reference-panic", fmt.Sprint(rp.Value), false, ""
+	}
+	vm := outcome{ok: verr == nil, events: vev.list}
+	ref := outcome{ok: rerr == nil, events: rev.list}
+	if verr != nil {
+		vm.msg = verr.Error()
+		if ee, ok := verr.(*starlark.EvalError); ok {
+			vm.msg = ee.Msg
+		}
+	}
+	if rerr != nil {
+		ref.msg = rerr.Error()
+	}
+	if vm.ok && ref.ok {
+		vm.globals, ref.globals = canon.ValueOpts(vv, brief), canon.ValueOpts(rv, brief)
+	}
+	// positions are not compared for host-initiated calls (the reference error may have none)
+	vm.line, vm.col, ref.line, ref.col = 0, 0, 0, 0
+	what, desc = compare(vm, ref)
+	return what, desc, vm.ok, vm.msg
 }
